@@ -118,7 +118,7 @@ Definition step (nan_skips : bool) (find : list bin -> bool -> xnum -> fb)
         | _ =>
         let r := calc_nd idx (s_axes s) (rows_of rows ws) in
         (Build_fstate (s_axes s) (vadd (s_freq s) (n_freq r)) (vadd (s_err2 s) (n_err2 r))
-           (xadd_at 0 (Fin (n_missed r)) (s_missed s)) (s_keep s), RVoid)
+           (if s_keep s then xadd_at 0 (Fin (n_missed r)) (s_missed s) else s_missed s) (s_keep s), RVoid)
         end
   end.
 
@@ -149,7 +149,7 @@ Definition all_exact (s : fstate) : bool := forallb (fun a => consecutive_exact 
 
 (** missed counters are compared only where the property defines them: tracked, and (1-D) exactly consecutive bins *)
 Definition missed_agree (s : fstate) (exp obs : list xnum) : bool :=
-  if negb (s_keep s) then true
+  if negb (s_keep s) then (if is1d s then true else all2 xeqb exp obs)      (* not tracked: nothing may change (N-D reads the counter) *)
   else if is1d s then
     (if all_exact s then all2 xeqb (firstn 2 exp) (firstn 2 obs) else true)
   else all2 xeqb exp obs.
@@ -213,7 +213,8 @@ Definition check_batch (s : fstate) (b : sx) : bool :=
   | SS "skip" => true
   | LL [f; e; m] =>
       match d_list d_q f, d_list d_q e, d_list d_x m with
-      | Some f, Some e, Some m => closel 0 (s_freq s) f && closel 0 (s_err2 s) e && missed_agree s (s_missed s) m
+      | Some f, Some e, Some m => closel 0 (s_freq s) f && closel 0 (s_err2 s) e &&
+                                   (if negb (s_keep s) then true else missed_agree s (s_missed s) m)      (* one-shot construction always counts *)
       | _, _, _ => false end
   | _ => false end.
 
